@@ -16,8 +16,14 @@ def reg(rng, allow_pc=True, pct=True):
     return ("n", n)
 
 
+ALNUM = "ABKOZabkz019"
+
+
 def val16(rng):
-    return rng.choice([0, 1, 2, -1, -2, 0o177777, -0o177777, 0o100000, 0o77777, 0o1000, rng.randrange(-65535, 65536), rng.randrange(0, 65536)])
+    # (values that have a spelling as a character literal: 'c and "cd)
+    ch1 = ord(rng.choice(ALNUM))
+    ch2 = ch1 | (ord(rng.choice(ALNUM)) << 8)
+    return rng.choice([0, 1, 2, -1, -2, 0o177777, -0o177777, 0o100000, 0o77777, 0o1000, rng.randrange(-65535, 65536), rng.randrange(0, 65536), ch1, ch2, ch2])
 
 
 RM_FORMS = ["R", "D", "L", "I", "J", "E", "F", "X", "Y", "Z", "#", "A", "V", "W"]
